@@ -78,6 +78,10 @@ def worker(job):
             if mode in ("n1", "n2", "L1") and rng.random() < 0.17:
                 tail = rng.choice(BAD_TAILS)
                 data = data + tail
+            if rng.random() < 0.2:
+                # options that are accepted and change nothing about the outcome (-P 0 = as many processes as possible)
+                opts = rng.choice([["-P", "0"], ["-P", "1"], ["--max-procs=0"], ["-P", "4"], ["-t"], ["--verbose"]]) + opts
+                st.inc("runs_with_an_outcome_neutral_option")
             r = xref.run_xargs(wd, opts, initial, data, script=",".join(seq))
             st.inc("evaluations")
             st.inc("mode:" + mode)
@@ -194,6 +198,9 @@ def special_cases(ctx):
         ("opening quote then newline at the end", [], None, b"a '\n", 1, 0),
         ("opening quote last byte, -L1", ["-L", "1"], None, b'a\n"', 1, None),
         ("unterminated double quote", ["-n1"], None, b'ok\n"never closed\n', 1, None),
+        ("argument of exactly 131072 bytes (32 pages: one too many with its terminator)", [], None, b"a\n" + b"B" * 131072 + b"\n", 1, None),
+        ("argument of exactly 131072 bytes, -n1 after a failing one", ["-n1"], None, b"a\n" + b"B" * 131072 + b"\nz\n", 1, 1),
+        ("argument of exactly 131072 bytes, -0", ["-0"], None, b"B" * 131072 + b"\0", 1, 0),
         ("argument too long for -s", ["-s", str(len(common.REC) + 1 + 6)], None, b"abcdefghijklmnop\n", 1, 0),
         ("argument too long for -s after ok ones", ["-s", str(len(common.REC) + 1 + 6)], None, b"ab\ncd\nabcdefghijklmnop\nzz\n", 1, None),
     ]
